@@ -45,10 +45,11 @@ def isCtl (op : Nat) : Bool := decide (8 ≤ op)
 
 /-- The rules a receiver in state `st` (server/client/extended bits; `frag` tracked separately)
     applies to a frame: the first broken rule name, if any. `ext` = compression extension attached:
-    RSV1 allowed on first data frames only (RFC 7692 §6). -/
+    RSV1 allowed on first data frames only (RFC 7692 §6) — and only when the state says extensions
+    were negotiated: an attached extension does not by itself lift the RSV rule. -/
 def frameBad (side : Nat) (ext : Bool) (frag : Bool) (h : Header) : Bool :=
   let st : St := { server := side % 2 == 1, client := side / 2 % 2 == 1,
-                   extended := side / 4 % 2 == 1 || ext, fragmented := frag }
+                   extended := side / 4 % 2 == 1, fragmented := frag }
   allRules.any (fun r => decide (Broken r h st))
   || (ext && h.rsv / 4 % 2 == 1 && (isCtl h.op || h.op == 0))
 
